@@ -318,6 +318,14 @@ def parse_vspec(path):
             stack.pop()
             cur_impl = None
             i += 1
+        elif head == '@mod':
+            node = ('mod', rest, [])
+            stack[-1].append(node)
+            stack.append(node[2])
+            i += 1
+        elif head == '@endmod':
+            stack.pop()
+            i += 1
         elif head == '@fn':
             fs = FnSpec()
             fs.line = i + 1
@@ -939,6 +947,13 @@ class Extractor:
                     out.add(sf.src[sf.toks[it.t0].start:sf.toks[it.body_open].end])
                     walk(sub, (sf, it, header))
                     out.add('}')
+                elif nd[0] == 'mod':
+                    # D3: items of different crates/modules with clashing names are kept apart in a module
+                    out.add('pub mod %s {' % nd[1])
+                    out.add('use super::*;')
+                    out.add('use vstd::prelude::*;')
+                    walk(nd[2], None)
+                    out.add('}')
                 elif nd[0] == 'fn':
                     fs = nd[1]
                     if impl_ctx and not fs.file:
@@ -950,7 +965,7 @@ class Extractor:
                             raise Undecided('free fn %s needs FILE ::' % fs.name)
                         sf = self.sf(fs.file)
                         items = sf.items
-                        qual = fs.name
+                        qual = '%s::%s' % (os.path.splitext(os.path.basename(fs.file))[0], fs.name)
                     it = _select(items, 'fn', fs.name, fs.cfg, fs.nth, what='in ' + sf.rel)
                     self.emit_fn(out, res, sf, it, fs, qual, canary)
                 elif nd[0] in ('struct', 'enum'):
